@@ -19,30 +19,30 @@ theorem set_replicate_append_cons {α} (j : Nat) (x y : α) (t : List α) :
 
 /-! ### schedules -/
 
-theorem runSched_append (cap : Nat) (a b : List Label) (s : LState) :
-    runSched cap (a ++ b) s = (runSched cap a s).bind (runSched cap b) := by
+theorem runSched_append (proto : Proto) (cap : Nat) (a b : List Label) (s : LState) :
+    runSched proto cap (a ++ b) s = (runSched proto cap a s).bind (runSched proto cap b) := by
   induction a generalizing s with
   | nil => rfl
   | cons l ls ih =>
     simp only [List.cons_append, runSched]
-    cases fire cap l s with
+    cases fire proto cap l s with
     | none => rfl
     | some s' => exact ih s'
 
-theorem runSched_reach (cap : Nat) (sched : List Label) (s0 s s' : LState)
-    (h0 : Reach cap s0 s) (h : runSched cap sched s = some s') : Reach cap s0 s' := by
+theorem runSched_reach (proto : Proto) (cap : Nat) (sched : List Label) (s0 s s' : LState)
+    (h0 : Reach proto cap s0 s) (h : runSched proto cap sched s = some s') : Reach proto cap s0 s' := by
   induction sched generalizing s with
   | nil => simp [runSched] at h; subst h; exact h0
   | cons l ls ih =>
     simp only [runSched] at h
-    cases hf : fire cap l s with
+    cases hf : fire proto cap l s with
     | none => simp [hf] at h
     | some s1 =>
       simp only [hf] at h
       exact ih s1 (.step h0 ⟨l, hf⟩) h
 
-theorem reach_runSched (cap : Nat) (s0 s : LState) (h : Reach cap s0 s) :
-    ∃ sched, runSched cap sched s0 = some s := by
+theorem reach_runSched (proto : Proto) (cap : Nat) (s0 s : LState) (h : Reach proto cap s0 s) :
+    ∃ sched, runSched proto cap sched s0 = some s := by
   induction h with
   | refl => exact ⟨[], rfl⟩
   | step _ hs ih =>
@@ -52,9 +52,16 @@ theorem reach_runSched (cap : Nat) (s0 s : LState) (h : Reach cap s0 s) :
     rw [runSched_append, hr]
     simp [runSched, hl]
 
+theorem reach_trans {proto : Proto} {cap : Nat} {s0 s1 s2 : LState}
+    (h1 : Reach proto cap s0 s1) (h2 : Reach proto cap s1 s2) : Reach proto cap s0 s2 := by
+  induction h2 with
+  | refl => exact h1
+  | step _ hs ih => exact .step ih hs
+
 /-- phase 0: `k` clients take the shared lock (no writer is queued) -/
-theorem run_acquires (cap k : Nat) : ∀ (j : Nat) (rest : List CPc) (ch : Nat) (wpc : WPc) (rd : Nat) (fl : Bool),
-    runSched cap ((List.range' j k).map .cAcquire)
+theorem run_acquires (proto : Proto) (cap k : Nat) :
+    ∀ (j : Nat) (rest : List CPc) (ch : Nat) (wpc : WPc) (rd : Nat) (fl : Bool),
+    runSched proto cap ((List.range' j k).map .cAcquire)
       { clients := List.replicate j .append ++ (List.replicate k .start ++ rest), chan := ch, wpc := wpc,
         readers := rd, writer := .idle, full := fl } =
     some { clients := List.replicate (j + k) .append ++ rest, chan := ch, wpc := wpc,
@@ -70,14 +77,14 @@ theorem run_acquires (cap k : Nat) : ∀ (j : Nat) (rest : List CPc) (ch : Nat) 
     exact this
 
 /-- all `n` clients take the shared lock before anything else happens -/
-theorem init_to_inside (cap n : Nat) :
-    runSched cap ((List.range' 0 n).map .cAcquire) (init n) = some (initInside n) := by
-  have := run_acquires cap n 0 [] 0 .recv 0 true
+theorem init_to_inside (proto : Proto) (cap n : Nat) :
+    runSched proto cap ((List.range' 0 n).map .cAcquire) (init n) = some (initInside n) := by
+  have := run_acquires proto cap n 0 [] 0 .recv 0 true
   simpa [init, initInside] using this
 
-/-- phase 1: `k` clients append into the full blob and move to `send` -/
+/-- phase 1 (`sendUnderLock`): `k` clients append into the full blob and move to `send` -/
 theorem run_appends (cap k : Nat) : ∀ (j : Nat) (rest : List CPc) (ch : Nat) (wpc : WPc) (rd : Nat) (wr : Writer),
-    runSched cap ((List.range' j k).map .cAppend)
+    runSched .sendUnderLock cap ((List.range' j k).map .cAppend)
       { clients := List.replicate j .send ++ (List.replicate k .append ++ rest), chan := ch, wpc := wpc,
         readers := rd, writer := wr, full := true } =
     some { clients := List.replicate (j + k) .send ++ rest, chan := ch, wpc := wpc,
@@ -87,15 +94,16 @@ theorem run_appends (cap k : Nat) : ∀ (j : Nat) (rest : List CPc) (ch : Nat) (
   | succ k ih =>
     intro j rest ch wpc rd wr
     simp only [List.range'_succ, List.map_cons, runSched, List.replicate_succ, List.cons_append]
-    simp only [fire, getElem?_replicate_append_cons, ↓reduceIte, set_replicate_append_cons]
+    simp only [fire, appendTarget, getElem?_replicate_append_cons, ↓reduceIte, set_replicate_append_cons]
     have := ih (j + 1) rest ch wpc rd wr
     rw [show j + (k + 1) = j + 1 + k by omega]
     exact this
 
-/-- phase 2: `k` clients send while the channel has room -/
-theorem run_sends (cap k : Nat) : ∀ (j : Nat) (rest : List CPc) (ch : Nat) (wpc : WPc) (rd : Nat) (wr : Writer) (fl : Bool),
+/-- phase 2 (`sendUnderLock`): `k` clients send while the channel has room -/
+theorem run_sends (proto : Proto) (cap k : Nat) :
+    ∀ (j : Nat) (rest : List CPc) (ch : Nat) (wpc : WPc) (rd : Nat) (wr : Writer) (fl : Bool),
     ch + k ≤ cap →
-    runSched cap ((List.range' j k).map .cSend)
+    runSched proto cap ((List.range' j k).map .cSend)
       { clients := List.replicate j .release ++ (List.replicate k .send ++ rest), chan := ch, wpc := wpc,
         readers := rd, writer := wr, full := fl } =
     some { clients := List.replicate (j + k) .release ++ rest, chan := ch + k, wpc := wpc,
@@ -111,9 +119,10 @@ theorem run_sends (cap k : Nat) : ∀ (j : Nat) (rest : List CPc) (ch : Nat) (wp
     rw [show j + (k + 1) = j + 1 + k by omega, show ch + (k + 1) = ch + 1 + k by omega]
     exact this
 
-/-- phase 3: `k` clients that have sent drop the shared lock -/
-theorem run_releases (cap k : Nat) : ∀ (j : Nat) (rest : List CPc) (ch : Nat) (wpc : WPc) (rd : Nat) (wr : Writer) (fl : Bool),
-    runSched cap ((List.range' j k).map .cRelease)
+/-- phase 3: `k` clients that have nothing more to send drop the shared lock -/
+theorem run_releases (proto : Proto) (cap k : Nat) :
+    ∀ (j : Nat) (rest : List CPc) (ch : Nat) (wpc : WPc) (rd : Nat) (wr : Writer) (fl : Bool),
+    runSched proto cap ((List.range' j k).map .cRelease)
       { clients := List.replicate j .done ++ (List.replicate k .release ++ rest), chan := ch, wpc := wpc,
         readers := rd, writer := wr, full := fl } =
     some { clients := List.replicate (j + k) .done ++ rest, chan := ch, wpc := wpc,
@@ -128,16 +137,17 @@ theorem run_releases (cap k : Nat) : ∀ (j : Nat) (rest : List CPc) (ch : Nat) 
     rw [show j + (k + 1) = j + 1 + k by omega, show rd - (k + 1) = rd - 1 - k by omega]
     exact this
 
-/-- the witness schedule is executable from `initInside (cap + 2)` and ends in `witnessState cap` -/
+/-- `sendUnderLock`: the witness schedule is executable from `initInside (cap + 2)` and ends in
+    `witnessState cap` -/
 theorem witnessSched_runs (cap : Nat) :
-    runSched cap (witnessSched cap) (initInside (cap + 2)) = some (witnessState cap) := by
+    runSched .sendUnderLock cap (witnessSched cap) (initInside (cap + 2)) = some (witnessState cap) := by
   unfold witnessSched initInside
   rw [runSched_append, runSched_append]
   have h1 := run_appends cap (cap + 2) 0 [] 0 .recv (cap + 2) .idle
   simp only [List.replicate_zero, List.nil_append, List.append_nil, Nat.zero_add] at h1
   rw [h1]
   simp only [Option.bind_some]
-  have h2 := run_sends cap cap 0 [.send, .send] 0 .recv (cap + 2) .idle true (by omega)
+  have h2 := run_sends .sendUnderLock cap cap 0 [.send, .send] 0 .recv (cap + 2) .idle true (by omega)
   simp only [List.replicate_zero, List.nil_append, Nat.zero_add] at h2
   rw [show List.replicate (cap + 2) CPc.send = List.replicate cap CPc.send ++ [.send, .send] by
         simp [List.replicate_succ']]
@@ -149,7 +159,7 @@ theorem witnessSched_runs (cap : Nat) :
     simp only [witnessState]
     rw [runSched_append]
     -- `wRecv`, then the last `cSend`
-    have h3 : runSched (c + 1) [.wRecv, .cSend (c + 1)]
+    have h3 : runSched .sendUnderLock (c + 1) [.wRecv, .cSend (c + 1)]
         { clients := List.replicate (c + 1) .release ++ [.send, .send], chan := c + 1, wpc := .recv,
           readers := c + 1 + 2, writer := .idle, full := true } =
         some { clients := List.replicate (c + 2) .release ++ [.send], chan := c + 1, wpc := .waitWrite,
@@ -158,31 +168,45 @@ theorem witnessSched_runs (cap : Nat) :
         getElem?_replicate_append_cons, Nat.lt_add_one, and_self, set_replicate_append_cons]
     rw [h3]
     simp only [Option.bind_some]
-    have h4 := run_releases (c + 1) (c + 2) 0 [.send] (c + 1) .waitWrite (c + 1 + 2) .waiting true
+    have h4 := run_releases .sendUnderLock (c + 1) (c + 2) 0 [.send] (c + 1) .waitWrite (c + 1 + 2) .waiting true
     simp only [List.replicate_zero, List.nil_append, Nat.zero_add] at h4
     rw [h4]
     congr 2
     omega
 
-/-- a client label is enabled only if that client is at the matching program counter -/
-theorem fire_client_mem {cap : Nat} {s s' : LState} :
-    (∀ i, fire cap (.cAcquire i) s = some s' → CPc.start ∈ s.clients) ∧
-    (∀ i, fire cap (.cAppend i) s = some s' → CPc.append ∈ s.clients) ∧
-    (∀ i, fire cap (.cSend i) s = some s' → CPc.send ∈ s.clients ∧ s.chan < cap) ∧
-    (∀ i, fire cap (.cRelease i) s = some s' → CPc.release ∈ s.clients) := by
-  refine ⟨?_, ?_, ?_, ?_⟩ <;> intro i h <;> simp only [fire] at h <;> split at h <;> try cases h
-  · rename_i hc; exact List.mem_iff_getElem?.2 ⟨i, hc.1⟩
-  · rename_i hc; exact List.mem_iff_getElem?.2 ⟨i, hc⟩
-  · rename_i hc; exact ⟨List.mem_iff_getElem?.2 ⟨i, hc.1⟩, hc.2⟩
-  · rename_i hc; exact List.mem_iff_getElem?.2 ⟨i, hc⟩
+/-- a client label is enabled only if that client is at a matching program counter -/
+theorem fire_client_mem {proto : Proto} {cap : Nat} {s s' : LState} :
+    (∀ i, fire proto cap (.cAcquire i) s = some s' → CPc.start ∈ s.clients) ∧
+    (∀ i, fire proto cap (.cAppend i) s = some s' → CPc.append ∈ s.clients) ∧
+    (∀ i, fire proto cap (.cSend i) s = some s' →
+        (CPc.send ∈ s.clients ∨ CPc.sendFree ∈ s.clients) ∧ s.chan < cap) ∧
+    (∀ i, fire proto cap (.cRelease i) s = some s' → CPc.release ∈ s.clients ∨ CPc.relSend ∈ s.clients) := by
+  refine ⟨?_, ?_, ?_, ?_⟩ <;> intro i h <;> simp only [fire] at h
+  · split at h
+    · rename_i hc; exact List.mem_iff_getElem?.2 ⟨i, hc.1⟩
+    · cases h
+  · split at h
+    · rename_i hc; exact List.mem_iff_getElem?.2 ⟨i, hc⟩
+    · cases h
+  · split at h
+    · rename_i hc; exact ⟨Or.inl (List.mem_iff_getElem?.2 ⟨i, hc.1⟩), hc.2⟩
+    · split at h
+      · rename_i hc; exact ⟨Or.inr (List.mem_iff_getElem?.2 ⟨i, hc.1⟩), hc.2⟩
+      · cases h
+  · split at h
+    · rename_i hc; exact Or.inl (List.mem_iff_getElem?.2 ⟨i, hc⟩)
+    · split at h
+      · rename_i hc; exact Or.inr (List.mem_iff_getElem?.2 ⟨i, hc⟩)
+      · cases h
 
-/-- the end of the witness schedule is a deadlock -/
-theorem witnessState_stuck (cap : Nat) : Stuck cap (witnessState cap) := by
+/-- the end of the witness schedule is a deadlock (whatever the protocol of the clients still to come:
+    nobody is left at `append`) -/
+theorem witnessState_stuck (proto : Proto) (cap : Nat) : Stuck proto cap (witnessState cap) := by
   cases cap with
   | zero =>
     refine ⟨by decide, ?_⟩
     rintro s' ⟨l, h⟩
-    have hm := @fire_client_mem 0 (witnessState 0) s'
+    have hm := @fire_client_mem proto 0 (witnessState 0) s'
     cases l with
     | cAcquire i => have := hm.1 i h; simp [witnessState] at this
     | cAppend i => have := hm.2.1 i h; simp [witnessState] at this
@@ -197,7 +221,7 @@ theorem witnessState_stuck (cap : Nat) : Stuck cap (witnessState cap) := by
       have := hf.1 .send (by simp [witnessState])
       cases this
     · rintro s' ⟨l, h⟩
-      have hm := @fire_client_mem (c + 1) (witnessState (c + 1)) s'
+      have hm := @fire_client_mem proto (c + 1) (witnessState (c + 1)) s'
       cases l with
       | cAcquire i => have := hm.1 i h; simp [witnessState] at this
       | cAppend i => have := hm.2.1 i h; simp [witnessState] at this
@@ -207,7 +231,7 @@ theorem witnessState_stuck (cap : Nat) : Stuck cap (witnessState cap) := by
       | wGrant => simp [fire, witnessState] at h
       | wSwitch => simp [fire, witnessState] at h
 
-/-! ### the invariant behind `no_deadlock_bounded` -/
+/-! ### the invariant (both protocols) -/
 
 def cnt (pc : CPc) (s : LState) : Nat := s.clients.count pc
 
@@ -221,11 +245,11 @@ def writerOf : WPc → Writer
   | .waitWrite => .waiting
   | .switching => .holding
 
-/-- holds in every state reachable from `init n` or `initInside n` -/
+/-- holds in every state reachable from `init n` or `initInside n`, under either protocol -/
 structure Inv (n : Nat) (s : LState) : Prop where
   len : s.clients.length = n
   /-- the shared holders are the clients between `acquire` and `release` -/
-  readers : s.readers = cnt .append s + cnt .send s + cnt .release s
+  readers : s.readers = cnt .append s + cnt .send s + cnt .release s + cnt .relSend s
   /-- every message in the channel or in the worker's hands was sent by a client that is past `send` -/
   chan : s.chan + busy s.wpc ≤ cnt .release s + cnt .done s
   writer : s.writer = writerOf s.wpc
@@ -262,7 +286,8 @@ theorem inv_init (n : Nat) : Inv n (init n) := by
 theorem inv_initInside (n : Nat) : Inv n (initInside n) := by
   constructor <;> simp [initInside, cnt, busy, writerOf, List.count_replicate]
 
-theorem inv_step {cap n : Nat} {s s' : LState} (hi : Inv n s) (hs : Step cap s s') : Inv n s' := by
+theorem inv_step {proto : Proto} {cap n : Nat} {s s' : LState} (hi : Inv n s) (hs : Step proto cap s s') :
+    Inv n s' := by
   obtain ⟨l, h⟩ := hs
   have hr := hi.readers
   have hc := hi.chan
@@ -294,8 +319,8 @@ theorem inv_step {cap n : Nat} {s s' : LState} (hi : Inv n s) (hs : Step cap s s
       have hpos := count_pos_of_getElem? hci
       constructor
       · simpa using hi.len
-      · simp only [cnt, count_set' hci]; cases s.full <;> simp <;> omega
-      · simp only [cnt, count_set' hci]; cases s.full <;> simp <;> omega
+      · simp only [cnt, count_set' hci]; cases s.full <;> cases proto <;> simp [appendTarget] <;> omega
+      · simp only [cnt, count_set' hci]; cases s.full <;> cases proto <;> simp [appendTarget] <;> omega
       · exact hw
       · exact he
     · cases h
@@ -312,7 +337,18 @@ theorem inv_step {cap n : Nat} {s s' : LState} (hi : Inv n s) (hs : Step cap s s
       · simp only [cnt, count_set' hci]; simp; omega
       · exact hw
       · exact he
-    · cases h
+    · split at h
+      · rename_i hg
+        obtain ⟨hci, _⟩ := hg
+        cases h
+        have hpos := count_pos_of_getElem? hci
+        constructor
+        · simpa using hi.len
+        · simp only [cnt, count_set' hci]; simp; omega
+        · simp only [cnt, count_set' hci]; simp; omega
+        · exact hw
+        · exact he
+      · cases h
   | cRelease i =>
     simp only [fire] at h
     split at h
@@ -325,7 +361,17 @@ theorem inv_step {cap n : Nat} {s s' : LState} (hi : Inv n s) (hs : Step cap s s
       · simp only [cnt, count_set' hci]; simp; omega
       · exact hw
       · intro hsw; have := he hsw; simp only; omega
-    · cases h
+    · split at h
+      · rename_i hci
+        cases h
+        have hpos := count_pos_of_getElem? hci
+        constructor
+        · simpa using hi.len
+        · simp only [cnt, count_set' hci]; simp; omega
+        · simp only [cnt, count_set' hci]; simp; omega
+        · exact hw
+        · intro hsw; have := he hsw; simp only; omega
+      · cases h
   | wRecv =>
     simp only [fire] at h
     split at h
@@ -374,55 +420,37 @@ theorem inv_step {cap n : Nat} {s s' : LState} (hi : Inv n s) (hs : Step cap s s
       · intro hsw; cases hsw
     · cases h
 
-theorem inv_reach {cap n : Nat} {s0 s : LState} (h0 : Inv n s0) (h : Reach cap s0 s) : Inv n s := by
+theorem inv_reach {proto : Proto} {cap n : Nat} {s0 s : LState} (h0 : Inv n s0) (h : Reach proto cap s0 s) :
+    Inv n s := by
   induction h with
   | refl => exact h0
   | step _ hs ih => exact inv_step ih hs
 
-/-- no step ever puts a client back to `start` -/
-theorem noStart_step {cap : Nat} {s s' : LState} (hn : CPc.start ∉ s.clients) (hs : Step cap s s') :
-    CPc.start ∉ s'.clients := by
-  obtain ⟨l, h⟩ := hs
-  have key : ∀ (i : Nat) (c : CPc), c ≠ .start → CPc.start ∉ s.clients.set i c := by
-    intro i c hc hmem
-    rcases List.mem_or_eq_of_mem_set hmem with h1 | h1
-    · exact hn h1
-    · exact hc h1.symm
-  cases l <;> simp only [fire] at h <;> split at h <;> try cases h
-  · rename_i hg; exact absurd (List.mem_iff_getElem?.2 ⟨_, hg.1⟩) hn
-  · exact key _ _ (by cases s.full <;> simp)
-  · exact key _ _ (by simp)
-  · exact key _ _ (by simp)
-  · split at h <;> cases h <;> exact hn
-  · exact hn
-  · exact hn
-
-theorem noStart_reach {cap : Nat} {s0 s : LState} (h0 : CPc.start ∉ s0.clients) (h : Reach cap s0 s) :
-    CPc.start ∉ s.clients := by
-  induction h with
-  | refl => exact h0
-  | step _ hs ih => exact noStart_step ih hs
-
-theorem step_of_isSome {cap : Nat} {s : LState} (l : Label) (h : (fire cap l s).isSome = true) :
-    ∃ s', Step cap s s' := by
-  cases hf : fire cap l s with
+theorem step_of_isSome {proto : Proto} {cap : Nat} {s : LState} (l : Label)
+    (h : (fire proto cap l s).isSome = true) : ∃ s', Step proto cap s s' := by
+  cases hf : fire proto cap l s with
   | none => simp [hf] at h
   | some s' => exact ⟨s', l, hf⟩
 
-/-- progress: with at most `cap + 1` clients a state that is not final has a successor -/
-theorem progress {cap n : Nat} {s : LState} (hi : Inv n s)
-    (hcap : 0 < cap) (hle : n ≤ cap + 1) (hnf : ¬ final s) : ∃ s', Step cap s s' := by
+/-- progress, bounded: with at most `cap + 1` clients a state that is not final has a successor
+    (either protocol) -/
+theorem progress {proto : Proto} {cap n : Nat} {s : LState} (hi : Inv n s)
+    (hcap : 0 < cap) (hle : n ≤ cap + 1) (hnf : ¬ final s) : ∃ s', Step proto cap s s' := by
   by_cases ha : CPc.append ∈ s.clients
   · obtain ⟨i, hci⟩ := List.mem_iff_getElem?.1 ha
     exact step_of_isSome (.cAppend i) (by simp [fire, hci])
   by_cases hrl : CPc.release ∈ s.clients
   · obtain ⟨i, hci⟩ := List.mem_iff_getElem?.1 hrl
     exact step_of_isSome (.cRelease i) (by simp [fire, hci])
+  by_cases hrs : CPc.relSend ∈ s.clients
+  · obtain ⟨i, hci⟩ := List.mem_iff_getElem?.1 hrs
+    exact step_of_isSome (.cRelease i) (by simp [fire, hci])
   have ha0 : s.clients.count .append = 0 := List.count_eq_zero.2 ha
   have hr0 : s.clients.count .release = 0 := List.count_eq_zero.2 hrl
+  have hs0 : s.clients.count .relSend = 0 := List.count_eq_zero.2 hrs
   have hrd := hi.readers
   have hch := hi.chan
-  simp only [cnt, ha0, hr0] at hrd hch
+  simp only [cnt, ha0, hr0, hs0] at hrd hch
   have hsd := count_add_count_le s.clients .done .send (by simp)
   rw [hi.len] at hsd
   cases hwp : s.wpc with
@@ -440,24 +468,290 @@ theorem progress {cap n : Nat} {s : LState} (hi : Inv n s)
     · refine step_of_isSome .wRecv ?_
       simp only [fire, hwp, hpos, and_self, ↓reduceIte]
       split <;> rfl
-    · by_cases hs : CPc.send ∈ s.clients
+    · have hlt : s.chan < cap := by omega
+      by_cases hs : CPc.send ∈ s.clients
       · obtain ⟨i, hci⟩ := List.mem_iff_getElem?.1 hs
-        have hlt : s.chan < cap := by omega
         exact step_of_isSome (.cSend i) (by simp [fire, hci, hlt])
-      · by_cases hst : CPc.start ∈ s.clients
-        · obtain ⟨i, hci⟩ := List.mem_iff_getElem?.1 hst
-          have hw : s.writer = .idle := by rw [hi.writer, hwp]; rfl
-          exact step_of_isSome (.cAcquire i) (by simp [fire, hci, hw])
-        exfalso
-        apply hnf
-        refine ⟨?_, by omega, hwp⟩
-        intro c hc
-        cases c with
-        | start => exact absurd hc hst
-        | append => exact absurd hc ha
-        | send => exact absurd hc hs
-        | release => exact absurd hc hrl
-        | done => rfl
+      by_cases hsf : CPc.sendFree ∈ s.clients
+      · obtain ⟨i, hci⟩ := List.mem_iff_getElem?.1 hsf
+        exact step_of_isSome (.cSend i) (by simp [fire, hci, hlt])
+      by_cases hst : CPc.start ∈ s.clients
+      · obtain ⟨i, hci⟩ := List.mem_iff_getElem?.1 hst
+        have hw : s.writer = .idle := by rw [hi.writer, hwp]; rfl
+        exact step_of_isSome (.cAcquire i) (by simp [fire, hci, hw])
+      exfalso
+      apply hnf
+      refine ⟨?_, by omega, hwp⟩
+      intro c hc
+      cases c with
+      | start => exact absurd hc hst
+      | append => exact absurd hc ha
+      | send => exact absurd hc hs
+      | release => exact absurd hc hrl
+      | relSend => exact absurd hc hrs
+      | sendFree => exact absurd hc hsf
+      | done => rfl
+
+/-! ### `sendAfterRelease`: nobody waits on the channel while holding the lock -/
+
+/-- under `sendAfterRelease` no client is ever at `send` (= in `sender.send` with the lock held) -/
+theorem noSend_step {cap : Nat} {s s' : LState} (hn : CPc.send ∉ s.clients)
+    (hs : Step .sendAfterRelease cap s s') : CPc.send ∉ s'.clients := by
+  obtain ⟨l, h⟩ := hs
+  have key : ∀ (i : Nat) (c : CPc), c ≠ .send → CPc.send ∉ s.clients.set i c := by
+    intro i c hc hmem
+    rcases List.mem_or_eq_of_mem_set hmem with h1 | h1
+    · exact hn h1
+    · exact hc h1.symm
+  cases l <;> simp only [fire] at h
+  · split at h
+    · cases h; exact key _ _ (by simp)
+    · cases h
+  · split at h
+    · cases h; exact key _ _ (by cases s.full <;> simp [appendTarget])
+    · cases h
+  · split at h
+    · cases h; exact key _ _ (by simp)
+    · split at h
+      · cases h; exact key _ _ (by simp)
+      · cases h
+  · split at h
+    · cases h; exact key _ _ (by simp)
+    · split at h
+      · cases h; exact key _ _ (by simp)
+      · cases h
+  · split at h
+    · split at h <;> cases h <;> exact hn
+    · cases h
+  · split at h
+    · cases h; exact hn
+    · cases h
+  · split at h
+    · cases h; exact hn
+    · cases h
+
+theorem noSend_reach {cap : Nat} {s0 s : LState} (h0 : CPc.send ∉ s0.clients)
+    (h : Reach .sendAfterRelease cap s0 s) : CPc.send ∉ s.clients := by
+  induction h with
+  | refl => exact h0
+  | step _ hs ih => exact noSend_step ih hs
+
+theorem noSend_init (n : Nat) : CPc.send ∉ (init n).clients := by simp [init]
+theorem noSend_initInside (n : Nat) : CPc.send ∉ (initInside n).clients := by simp [initInside]
+
+/-- progress, unbounded: when no client can be at `send`, a state that is not final has a successor, for any
+    number of clients.  (Whoever holds the shared lock can always move — `append`, `release`, `relSend` are
+    never blocked —, so the readers drain, the worker gets the lock, and the channel is emptied by the
+    worker while the senders wait outside the lock.) -/
+theorem progress_free {proto : Proto} {cap n : Nat} {s : LState} (hi : Inv n s) (hns : CPc.send ∉ s.clients)
+    (hcap : 0 < cap) (hnf : ¬ final s) : ∃ s', Step proto cap s s' := by
+  by_cases ha : CPc.append ∈ s.clients
+  · obtain ⟨i, hci⟩ := List.mem_iff_getElem?.1 ha
+    exact step_of_isSome (.cAppend i) (by simp [fire, hci])
+  by_cases hrl : CPc.release ∈ s.clients
+  · obtain ⟨i, hci⟩ := List.mem_iff_getElem?.1 hrl
+    exact step_of_isSome (.cRelease i) (by simp [fire, hci])
+  by_cases hrs : CPc.relSend ∈ s.clients
+  · obtain ⟨i, hci⟩ := List.mem_iff_getElem?.1 hrs
+    exact step_of_isSome (.cRelease i) (by simp [fire, hci])
+  have ha0 : s.clients.count .append = 0 := List.count_eq_zero.2 ha
+  have hr0 : s.clients.count .release = 0 := List.count_eq_zero.2 hrl
+  have hs0 : s.clients.count .relSend = 0 := List.count_eq_zero.2 hrs
+  have hn0 : s.clients.count .send = 0 := List.count_eq_zero.2 hns
+  have hrd := hi.readers
+  simp only [cnt, ha0, hr0, hs0, hn0] at hrd
+  cases hwp : s.wpc with
+  | switching => exact step_of_isSome .wSwitch (by simp [fire, hwp])
+  | waitWrite => exact step_of_isSome .wGrant (by simp [fire, hwp, hrd])
+  | recv =>
+    by_cases hpos : 0 < s.chan
+    · refine step_of_isSome .wRecv ?_
+      simp only [fire, hwp, hpos, and_self, ↓reduceIte]
+      split <;> rfl
+    · have hlt : s.chan < cap := by omega
+      by_cases hsf : CPc.sendFree ∈ s.clients
+      · obtain ⟨i, hci⟩ := List.mem_iff_getElem?.1 hsf
+        exact step_of_isSome (.cSend i) (by simp [fire, hci, hlt])
+      by_cases hst : CPc.start ∈ s.clients
+      · obtain ⟨i, hci⟩ := List.mem_iff_getElem?.1 hst
+        have hw : s.writer = .idle := by rw [hi.writer, hwp]; rfl
+        exact step_of_isSome (.cAcquire i) (by simp [fire, hci, hw])
+      exfalso
+      apply hnf
+      refine ⟨?_, by omega, hwp⟩
+      intro c hc
+      cases c with
+      | start => exact absurd hc hst
+      | append => exact absurd hc ha
+      | send => exact absurd hc hns
+      | release => exact absurd hc hrl
+      | relSend => exact absurd hc hrs
+      | sendFree => exact absurd hc hsf
+      | done => rfl
+
+/-! ### a measure that every step decreases (both protocols) -/
+
+/-- what a client still has to do, in units that pay for the worker's handling of its message -/
+def CPc.weight : CPc → Nat
+  | .start => 16
+  | .append => 12
+  | .send => 8
+  | .relSend => 8
+  | .release => 4
+  | .sendFree => 4
+  | .done => 0
+
+def WPc.weight : WPc → Nat
+  | .recv => 0
+  | .waitWrite => 2
+  | .switching => 1
+
+/-- every step makes this smaller: a client step pays 4 (a `send` puts 3 back for the message), taking a
+    message out pays 3 and may put 2 back for the lock, grant and switch pay 1 each -/
+def measure (s : LState) : Nat := (s.clients.map CPc.weight).sum + 3 * s.chan + s.wpc.weight
+
+theorem sum_weight_set : ∀ (l : List CPc) (i : Nat) (a c : CPc), l[i]? = some a →
+    ((l.set i c).map CPc.weight).sum + a.weight = (l.map CPc.weight).sum + c.weight := by
+  intro l
+  induction l with
+  | nil => intro i a c h; simp at h
+  | cons x xs ih =>
+    intro i a c h
+    cases i with
+    | zero =>
+      simp only [List.getElem?_cons_zero, Option.some.injEq] at h
+      subst h
+      simp only [List.set_cons_zero, List.map_cons, List.sum_cons]
+      omega
+    | succ i =>
+      simp only [List.getElem?_cons_succ] at h
+      have := ih i a c h
+      simp only [List.set_cons_succ, List.map_cons, List.sum_cons]
+      omega
+
+theorem measure_step {proto : Proto} {cap : Nat} {s s' : LState} (hs : Step proto cap s s') :
+    measure s' < measure s := by
+  obtain ⟨l, h⟩ := hs
+  cases l with
+  | cAcquire i =>
+    simp only [fire] at h
+    split at h
+    · rename_i hg
+      cases h
+      have := sum_weight_set s.clients i _ .append hg.1
+      simp only [measure, CPc.weight] at this ⊢
+      omega
+    · cases h
+  | cAppend i =>
+    simp only [fire] at h
+    split at h
+    · rename_i hg
+      cases h
+      have := sum_weight_set s.clients i _ (appendTarget proto s.full) hg
+      have hle : (appendTarget proto s.full).weight ≤ 8 := by
+        cases proto <;> cases s.full <;> simp [appendTarget, CPc.weight]
+      have h12 : CPc.append.weight = 12 := rfl
+      rw [h12] at this
+      simp only [measure]
+      omega
+    · cases h
+  | cSend i =>
+    simp only [fire] at h
+    split at h
+    · rename_i hg
+      cases h
+      have := sum_weight_set s.clients i _ .release hg.1
+      simp only [measure, CPc.weight] at this ⊢
+      omega
+    · split at h
+      · rename_i hg
+        cases h
+        have := sum_weight_set s.clients i _ .done hg.1
+        simp only [measure, CPc.weight] at this ⊢
+        omega
+      · cases h
+  | cRelease i =>
+    simp only [fire] at h
+    split at h
+    · rename_i hg
+      cases h
+      have := sum_weight_set s.clients i _ .done hg
+      simp only [measure, CPc.weight] at this ⊢
+      omega
+    · split at h
+      · rename_i hg
+        cases h
+        have := sum_weight_set s.clients i _ .sendFree hg
+        simp only [measure, CPc.weight] at this ⊢
+        omega
+      · cases h
+  | wRecv =>
+    simp only [fire] at h
+    split at h
+    · rename_i hg
+      obtain ⟨hwp, hpos⟩ := hg
+      split at h <;> cases h <;> simp only [measure, hwp, WPc.weight] <;> omega
+    · cases h
+  | wGrant =>
+    simp only [fire] at h
+    split at h
+    · rename_i hg
+      cases h
+      simp only [measure, hg.1, WPc.weight]
+      omega
+    · cases h
+  | wSwitch =>
+    simp only [fire] at h
+    split at h
+    · rename_i hg
+      cases h
+      simp only [measure, hg, WPc.weight]
+      omega
+    · cases h
+
+/-- no schedule is longer than the measure of the state it starts in -/
+theorem runSched_length_le {proto : Proto} {cap : Nat} : ∀ (sched : List Label) (s s' : LState),
+    runSched proto cap sched s = some s' → sched.length + measure s' ≤ measure s := by
+  intro sched
+  induction sched with
+  | nil => intro s s' h; simp [runSched] at h; subst h; simp
+  | cons l ls ih =>
+    intro s s' h
+    simp only [runSched] at h
+    cases hf : fire proto cap l s with
+    | none => simp [hf] at h
+    | some s1 =>
+      simp only [hf] at h
+      have h1 := ih s1 s' h
+      have h2 := measure_step (s := s) (s' := s1) ⟨l, hf⟩
+      simp only [List.length_cons]
+      omega
+
+/-- if every non-final state satisfying an invariant has a successor, every such state can be run to a
+    final state (by induction on the measure) -/
+theorem finish_of_progress {proto : Proto} {cap : Nat} (P : LState → Prop)
+    (hstep : ∀ s s', P s → Step proto cap s s' → P s')
+    (hprog : ∀ s, P s → ¬ final s → ∃ s', Step proto cap s s') :
+    ∀ (m : Nat) (s : LState), measure s ≤ m → P s →
+      ∃ sched s', runSched proto cap sched s = some s' ∧ final s' := by
+  intro m
+  induction m with
+  | zero =>
+    intro s hm hp
+    by_cases hf : final s
+    · exact ⟨[], s, rfl, hf⟩
+    · obtain ⟨s1, hs1⟩ := hprog s hp hf
+      have := measure_step hs1
+      omega
+  | succ m ih =>
+    intro s hm hp
+    by_cases hf : final s
+    · exact ⟨[], s, rfl, hf⟩
+    · obtain ⟨s1, hs1⟩ := hprog s hp hf
+      have hlt := measure_step hs1
+      obtain ⟨sched, s2, hrun, hfin⟩ := ih s1 (by omega) (hstep s s1 hp hs1)
+      obtain ⟨l, hl⟩ := hs1
+      exact ⟨l :: sched, s2, by simp [runSched, hl, hrun], hfin⟩
 
 end Lts
 
